@@ -9,14 +9,14 @@ var profiles = map[string]*Profile{
 		W: map[string]int{"text": 5, "print": 7, "comment": 2, "marker": 1}},
 	"C02": {Name: "conditions", MaxDepth: 3, MaxItems: 5, CondHist: true,
 		W: map[string]int{"text": 1, "marker": 1, "print": 1, "if": 8, "ternary": 2, "switch": 4, "ifok": 2, "ctx": 2, "dyncond": 2, "ctxcmp": 2, "cloop": 2}},
-	"C03": {Name: "loops", MaxDepth: 3, MaxItems: 4, Includes: true,
-		W: map[string]int{"text": 3, "marker": 2, "print": 4, "cloop": 5, "rloop": 5, "if": 1, "pastprint": 2, "include": 1}},
+	"C03": {Name: "loops", MaxDepth: 3, MaxItems: 4, Includes: true, BreakN: true,
+		W: map[string]int{"text": 3, "marker": 2, "print": 4, "cloop": 5, "rloop": 5, "if": 1, "pastprint": 2, "include": 1, "break": 1, "lazybreak": 1, "continue": 1}},
 	"C11": {Name: "letters-and-chains", MaxDepth: 1, MaxItems: 5, Letters: true, Mods: true, PfxSfx: true, LongVals: 8,
 		W: map[string]int{"text": 1, "print": 9, "ctx": 2, "dynprint": 2, "qempty": 1}},
 	"C14": {Name: "loop-control", MaxDepth: 4, MaxItems: 3, BreakN: true, Includes: true,
 		W: map[string]int{"marker": 3, "print": 1, "cloop": 5, "rloop": 4, "if": 2, "break": 3, "lazybreak": 3, "continue": 2, "ifok": 2, "include": 2}},
-	"C15": {Name: "variables", MaxDepth: 2, MaxItems: 8, Mods: true, OKFlags: true, LongVals: 8,
-		W: map[string]int{"marker": 1, "print": 4, "ctx": 5, "counter": 4, "if": 2, "cloop": 3, "rloop": 1, "dynprint": 6, "dyncond": 4, "ifok": 2, "pastprint": 2, "ctxcmp": 1}},
+	"C15": {Name: "variables", MaxDepth: 2, MaxItems: 8, Mods: true, OKFlags: true, LongVals: 8, Includes: true,
+		W: map[string]int{"marker": 1, "print": 4, "ctx": 5, "counter": 4, "if": 2, "cloop": 3, "rloop": 1, "dynprint": 6, "dyncond": 4, "ifok": 2, "pastprint": 2, "ctxcmp": 1, "include": 1, "okself": 1}},
 	"C16": {Name: "include-exit", MaxDepth: 3, MaxItems: 5, Includes: true, Regions: true,
 		W: map[string]int{"marker": 3, "print": 2, "include": 5, "exit": 2, "if": 2, "switch": 1, "cloop": 2, "rloop": 2, "region": 1, "ctx": 1, "ifok": 2}},
 	"C17": {Name: "all-constructs-with-faults", MaxDepth: 3, MaxItems: 4, Includes: true, Regions: true, PfxSfx: true, Letters: true, Faults: true, BreakN: true, Mods: true, Effects: true, LongVals: 4,
@@ -56,7 +56,7 @@ func mergeResults(a, b *Result) *Result {
 }
 
 func init() {
-	for _, p := range []string{"C14", "C16", "ALL", "REGION", "C02", "C11", "C15"} {
+	for _, p := range []string{"C14", "ALL", "REGION", "C02", "C11", "C15"} {
 		p := p
 		runners[p] = func(o *Options) *Result {
 			return runInterp(o, p, profiles[p], 300, 6000, corrInterp)
@@ -77,6 +77,16 @@ func init() {
 		res.Rule += " || source clean-up: generated sources built from comment brackets, '#', braces, line breaks, tabs, blanks, \\r \\f \\v and tags, under both keep-format settings; the parser's cutComments/cutFmt (VerifPreprocess hook) against Model/Preproc.v byte for byte"
 		res.WriteReplays(o.Verif+"/evidence/replays", "C01")
 		return res
+	}
+	runners["C16"] = func(o *Options) *Result {
+		res := runInterp(o, "C16", profiles["C16"], 300, 6000, corrInterp)
+		if res.InfraError != "" || o.Replay != "" {
+			return res
+		}
+		// the same templates as histories on one context (renders that fail inside an include or
+		// end through exit, then further renders with and without Reset), against the model
+		hres := runHistProp(o, "C16", profiles["C16"], 40, 400, func(h *history, res *Result, o *Options) {})
+		return mergeResults(res, hres)
 	}
 	runners["C03"] = func(o *Options) *Result {
 		res := runInterp(o, "C03", profiles["C03"], 300, 6000, corrInterp)
